@@ -77,6 +77,18 @@ def after_every_prelude(battery, name="battery_after_every_kind_of_earlier_conne
     return Enumeration(name, make, exhaustive=True)
 
 
+def with_noise(battery, name="battery_with_rejected_application_calls"):
+    """Enumeration: each case of a small fixed battery while the application tries EVERY kind of call with unsendable
+    arguments (simnet.BAD_CALLS), at Ready and at the first message, catching the error."""
+    def make():
+        from . import simnet
+        for kind in simnet.BAD_CALLS:
+            for when in (["event", "ready", 0], ["msg", 0]):
+                for case in battery:
+                    yield dict(case, noise_calls=[{"when": when, "do": kind}])
+    return Enumeration(name, make, exhaustive=True)
+
+
 def with_companion(battery, name="battery_with_a_second_live_connection"):
     """Enumeration: each case of a small fixed battery while a SECOND connection is alive in the same process
     (simnet.Companion), in both modes."""
@@ -274,6 +286,9 @@ def guarded_run(prop, case):
         if isinstance(case, dict) and case.get("copts_noise"):
             # connect() options that should make no difference to this property (the scenario's own ones win)
             simnet.CASE_COPTS = dict(case["copts_noise"])
+        if isinstance(case, dict) and case.get("noise_calls"):
+            simnet.CASE_NOISE = list(case["noise_calls"])
+        del simnet.NOISE_PROBLEMS[:]
         cspec = case.get("companion") if isinstance(case, dict) else None
         if cspec:
             # a second live connection in the same process accompanies every simulated execution of this case
@@ -281,6 +296,8 @@ def guarded_run(prop, case):
         res = prop.run_case(case)
         if spec and isinstance(res.labels, set):
             res.labels.add("after_earlier_connection:" + ("same_object" if spec.get("same") else "other_object"))
+        if isinstance(case, dict) and case.get("noise_calls") and isinstance(res.labels, set):
+            res.labels.add("application_tried_unsendable_calls")
         if cspec and isinstance(res.labels, set):
             res.labels.add("with_second_live_connection:" + cspec.get("mode", "interleaved"))
         if simnet.BUG_LOG:
@@ -295,6 +312,7 @@ def guarded_run(prop, case):
         simnet.CASE_PRELUDE = None
         simnet.CASE_COMPANION = None
         simnet.CASE_COPTS = None
+        simnet.CASE_NOISE = None
         signal.alarm(0)
 
 
